@@ -9,6 +9,8 @@ package rig
 
 import (
 	"fmt"
+	"io"
+	"log"
 	"math/rand"
 	"os"
 	"path/filepath"
@@ -16,6 +18,7 @@ import (
 	"sort"
 	"strings"
 	"sync"
+	"sync/atomic"
 	"time"
 
 	"github.com/ErdemOzgen/blackdagger/internal/client"
@@ -26,6 +29,17 @@ import (
 	"github.com/ErdemOzgen/blackdagger/internal/scheduler"
 	"github.com/ErdemOzgen/blackdagger/internal/util"
 )
+
+// pollFallbackWriter notices the daemon's watcher falling back to polling (no inotify instance left on the machine):
+// file events then arrive up to a minute late, which says nothing about the daemon.
+type pollFallbackWriter struct{ hit *int32 }
+
+func (w pollFallbackWriter) Write(p []byte) (int, error) {
+	if strings.Contains(string(p), "fallback to PollingWatcher") {
+		atomic.StoreInt32(w.hit, 1)
+	}
+	return len(p), nil
+}
 
 type CronTerm struct {
 	Kind string `json:"k"` // star, single, range
@@ -147,7 +161,21 @@ func GenCronExpr(r *rand.Rand, dense bool) CronExpr {
 		fields = append(fields, ts)
 		parts = append(parts, strings.Join(ss, ","))
 	}
-	return CronExpr{Text: strings.Join(parts, " "), Fields: fields}
+	ex := CronExpr{Text: strings.Join(parts, " "), Fields: fields}
+	if r.Intn(12) == 0 {
+		// a date that never comes (31 February, 30 February, 31 April ...): the expression never matches
+		mon := []int{2, 2, 4, 6, 9, 11}[r.Intn(6)]
+		dom := 31
+		if mon == 2 && r.Intn(2) == 0 {
+			dom = 30
+		}
+		ex.Fields[2] = []CronTerm{{Kind: "single", A: dom}}
+		ex.Fields[3] = []CronTerm{{Kind: "single", A: mon}}
+		ex.Fields[4] = []CronTerm{{Kind: "star"}}
+		parts[2], parts[3], parts[4] = fmt.Sprint(dom), cronVal(r, 3, mon), "*"
+		ex.Text = strings.Join(parts, " ")
+	}
+	return ex
 }
 
 func cronYAML(d CronDag) string {
@@ -313,8 +341,34 @@ func RunCron(sc CronScenario, base string, emit func(Ev)) error {
 	t0 := time.Unix(sc.T0, 0).UTC()
 	defs := map[string]CronDag{} // current definition per file (what the daemon should have loaded)
 	disk := map[string]CronDag{} // what the file holds now
+	// definitions are put in place atomically (write aside, rename): a watcher that reads a file between the truncation
+	// and the write of a plain overwrite would load an empty - valid - definition, which is about the editor, not the daemon
 	write := func(d CronDag) {
-		os.WriteFile(filepath.Join(dagsDir, d.Name+".yaml"), []byte(cronYAML(d)), 0o644)
+		tmp := filepath.Join(dir, "incoming-"+d.Name)
+		os.WriteFile(tmp, []byte(cronYAML(d)), 0o644)
+		os.Rename(tmp, filepath.Join(dagsDir, d.Name+".yaml"))
+	}
+	// what the daemon holds for a DAG whose file was overwritten with a malformed text is not specified (the property only
+	// says the OTHER DAGs keep being scheduled): such a DAG is not judged any more
+	unspec := map[string]bool{}
+	wantSched := func(d CronDag) []string {
+		out := []string{}
+		st := d.Start
+		if d.Form == "string" && len(st) > 1 {
+			st = st[:1]
+		}
+		for _, x := range st {
+			out = append(out, "start:"+x.Text)
+		}
+		if d.Form == "map" {
+			for _, x := range d.Stop {
+				out = append(out, "stop:"+x.Text)
+			}
+			for _, x := range d.Restart {
+				out = append(out, "restart:"+x.Text)
+			}
+		}
+		return out
 	}
 	for _, d := range sc.Dags {
 		write(d)
@@ -346,6 +400,9 @@ func RunCron(sc CronScenario, base string, emit func(Ev)) error {
 		}
 	}
 	defer func() { scheduler.VerifInvoke = nil }()
+	var pollFallback int32
+	log.SetOutput(pollFallbackWriter{&pollFallback})
+	defer log.SetOutput(io.Discard)
 	mk := func() (*scheduler.Scheduler, chan any) {
 		s := scheduler.New(&config.Config{DAGs: dagsDir, WorkDir: dir, LogDir: filepath.Join(dir, "logs"), Executable: "/bin/false"}, quietLogger, fake)
 		done := make(chan any)
@@ -366,7 +423,7 @@ func RunCron(sc CronScenario, base string, emit func(Ev)) error {
 		return l
 	}
 	waitLoaded := func(check func([]string) bool) {
-		dl := time.Now().Add(5 * time.Second)
+		dl := time.Now().Add(20 * time.Second)
 		for time.Now().Before(dl) {
 			got := make(chan []string, 1)
 			go func() { got <- s.VerifLoaded() }()
@@ -375,7 +432,7 @@ func RunCron(sc CronScenario, base string, emit func(Ev)) error {
 				if check(l) {
 					return
 				}
-			case <-time.After(time.Second):
+			case <-time.After(6 * time.Second):
 				return // the reader does not answer: the next tick will report it
 			}
 			time.Sleep(5 * time.Millisecond)
@@ -397,18 +454,24 @@ func RunCron(sc CronScenario, base string, emit func(Ev)) error {
 				if d.Form == "invalid" || d.Form == "badcron" {
 					if !had {
 						defs[d.Name] = d
-					} // a broken save leaves the previously loaded definition in place
+					} else {
+						unspec[d.Name] = true
+					}
 					_ = prev
 					time.Sleep(150 * time.Millisecond)
 				} else {
 					defs[d.Name] = d
+					delete(unspec, d.Name)
 					fake.dur[d.Name] = d.Dur
-					// wait until the watcher has seen the new text (the schedule text is not observable, give it time)
-					waitLoaded(func(l []string) bool { return contains(l, d.Name+".yaml") })
-					time.Sleep(150 * time.Millisecond)
+					// wait until the daemon holds the new text (bounded: a daemon that never picks it up is judged at the tick)
+					want := strings.Join(wantSched(d), "|")
+					waitLoaded(func(l []string) bool {
+						return contains(l, d.Name+".yaml") && strings.Join(s.VerifLoadedSchedules(d.Name+".yaml"), "|") == want
+					})
 				}
 			case "remove":
 				d := sc.Dags[e.Dag]
+				delete(unspec, d.Name)
 				os.Remove(filepath.Join(dagsDir, d.Name+".yaml"))
 				delete(disk, d.Name)
 				dd := defs[d.Name]
@@ -423,6 +486,7 @@ func RunCron(sc CronScenario, base string, emit func(Ev)) error {
 				close(done)
 				s, done = mk()
 				// after a restart only what is on disk counts
+				unspec = map[string]bool{}
 				defs = map[string]CronDag{}
 				for n, d := range disk {
 					defs[n] = d
@@ -450,7 +514,7 @@ func RunCron(sc CronScenario, base string, emit func(Ev)) error {
 		case <-tickDone:
 		case <-time.After(6 * time.Second):
 			emit(Ev{"ev": "Hung", "scen": sc.Scen, "i": i, "m": tick.Unix() / 60})
-			emit(Ev{"ev": "End", "scen": sc.Scen})
+			emit(Ev{"ev": "End", "scen": sc.Scen, "pollFallback": atomic.LoadInt32(&pollFallback) == 1})
 			return nil
 		}
 		fake.mu.Lock()
@@ -481,7 +545,7 @@ func RunCron(sc CronScenario, base string, emit func(Ev)) error {
 			if ok {
 				def = Ev{"form": d.Form, "start": nz(d.Start), "stop": nz(d.Stop), "restart": nz(d.Restart)}
 			}
-			per[n] = Ev{"def": def, "susp": fake.susp[n], "invStart": inv("Start"), "invStop": inv("Stop"), "invRestart": inv("Restart"),
+			per[n] = Ev{"def": def, "unspec": unspec[n], "susp": fake.susp[n], "invStart": inv("Start"), "invStop": inv("Stop"), "invRestart": inv("Restart"),
 				"startAns": sa, "stopAns": so, "starts": fake.starts[n], "stops": fake.stops[n], "restarts": fake.restarts[n]}
 		}
 		// starts become visible, runs end
@@ -504,7 +568,7 @@ func RunCron(sc CronScenario, base string, emit func(Ev)) error {
 			"bd":     Ev{"min": tick.Minute(), "hour": tick.Hour(), "dom": tick.Day(), "mon": int(tick.Month()), "dow": int(tick.Weekday())},
 			"loaded": loaded, "expectLoaded": expectLoaded(), "dags": per})
 	}
-	emit(Ev{"ev": "End", "scen": sc.Scen})
+	emit(Ev{"ev": "End", "scen": sc.Scen, "pollFallback": atomic.LoadInt32(&pollFallback) == 1})
 	return nil
 }
 
